@@ -581,8 +581,17 @@ func TestC12Shutdown(t *testing.T) {
 		// a client that asks for the (large) equipment list and then does not read
 		// the answer: whatever the handler holds while it writes, it must not be
 		// something the rest of the server needs
-		if rapid.IntRange(0, 2).Draw(t, "stalledReader") == 0 {
-			for i := 0; i < 260; i++ {
+		if rapid.Bool().Draw(t, "stalledReader") {
+			// which large answer the client sits on: the equipment list of 260
+			// devices, or 8 pipelined requests for a device's recent reports
+			// (about 0.7 MB each, whatever the history)
+			sitOn := rapid.SampledFrom([]string{"equipment", "recent-reports"}).Draw(t, "sitOn")
+			request := "GET /api/v1/equipment HTTP/1.1\r\nHost: x\r\n\r\n"
+			if sitOn == "recent-reports" {
+				pk := w.devKey[w.devs[0]].Pub
+				request = strings.Repeat("GET /api/v1/recent-reports?publicKey="+hex.EncodeToString(pk[:])+" HTTP/1.1\r\nHost: x\r\n\r\n", 8)
+			}
+			for i := 0; i < 260 && sitOn == "equipment"; i++ {
 				a := ref.Auth{ShortID: uint32(5000 + i), PublicKey: keyFor(fmt.Sprintf("c12-many-%d", i)).Pub, Capacity: 9, Latitude: 1.5, Longitude: -2.5}
 				a.Sig = ref.Sign(s.gca, a.SigningBytes())
 				if st, _, err := s.S.Authorize(a); err != nil || st != 200 {
@@ -601,7 +610,7 @@ func TestC12Shutdown(t *testing.T) {
 			if err != nil {
 				t.Fatal(err)
 			}
-			c.Write([]byte("GET /api/v1/equipment HTTP/1.1\r\nHost: x\r\n\r\n"))
+			c.Write([]byte(request))
 			conns = append(conns, c)
 			nHTTP++
 			time.Sleep(150 * time.Millisecond) // let the handler fill the socket buffers
@@ -624,12 +633,13 @@ func TestC12Shutdown(t *testing.T) {
 				done <- ""
 			}()
 			if !world.WaitActive(6*time.Second, 5*time.Millisecond, func() bool { return len(done) > 0 }) {
-				s.fail("statistics / sync / report are not answered within 6 s of active time while a client sits on an unread equipment list")
+				s.fail("statistics / sync / report are not answered within 6 s of active time while a client sits on an unread answer (%s)", sitOn)
 			}
 			if why := <-done; why != "" {
-				s.fail("while a client sits on an unread equipment list: %s", why)
+				s.fail("while a client sits on an unread answer (%s): %s", sitOn, why)
 			}
 			ev.Label("c12:shutdown-with-stalled-reader-of-large-response")
+			ev.Label("c12:stalled-reader-of-" + sitOn)
 		}
 		stall := rapid.Bool().Draw(t, "stalledPeer")
 		var ln net.Listener
